@@ -2,7 +2,7 @@
    Statements only; K is an arbitrary field (FLaws K), so every statement holds in particular
    for all real field values (instance ROps) and is executed at Qc by the correspondence. *)
 From Coq Require Import Qcanon Reals.
-From DF Require Import Prelude FieldK NDArray Diff C04_proofs C04_linear C04_ring C04_witness.
+From DF Require Import Prelude FieldK NDArray Diff C04_proofs C04_linear C04_ring C04_uniform C04_witness.
 
 (* --- runs: each maximal run of valid cells is differentiated on its own --- *)
 Theorem C04_whole_valid_line_is_one_run : forall (K : FOps) order h (r : list K),
@@ -108,6 +108,14 @@ Theorem C04_linear : forall (K : FOps), FLaws K -> forall order h a b (u w : lis
   sdc K order h (lin K a b u w) valid = lin K a b (sdc K order h u valid) (sdc K order h w valid).
 Proof. exact sdc_lin. Qed.
 Print Assumptions C04_linear.
+
+(* --- a uniform line has zero derivative in every cell, whatever the validity pattern and run lengths
+   (the coefficient sums of the source-derived stencil tuples vanish) --- *)
+Theorem C04_uniform_zero : forall (K : FOps), FLaws K -> forall order c h (vals : list K) valid,
+  (order = 1 \/ order = 2)%nat -> all_eq K c vals -> length vals = length valid ->
+  sdc K order h vals valid = map (fun _ => f0 K) vals.
+Proof. exact sdc_const. Qed.
+Print Assumptions C04_uniform_zero.
 
 (* --- each grid line and component on its own (n-d lift) --- *)
 Theorem C04_per_line_per_component : forall (K : FOps) sh nvdim ax order h periodic restrict f valid i,
